@@ -297,6 +297,24 @@ def gen_jointly_invalid():
     return gen
 
 
+def gen_long_names():
+    """Identifiers of 60-200 characters as variables, parameters and errors, and statements of several hundred characters."""
+    def gen():
+        for m in (60, 70, 71, 76, 77, 78, 80, 110, 200):
+            for ch in ('a', 'Z', 'x_'):
+                nm = (ch * m)[:m]
+                yield {'s': f'X = {nm}'}
+                yield {'s': f'{nm} = X'}
+                yield {'s': f'Y = {{{nm}}} * X[-1]'}
+                yield {'s': f'Y = X + <{nm}>'}
+                yield {'s': f'Y = X + {nm}\nZ = {nm}[-1] + W'}
+                yield {'s': f'Y = b{nm} + {nm}c'}
+        for k in (20, 60, 150):
+            yield {'s': 'Y = ' + ' + '.join(f'v{i}' for i in range(k))}
+            yield {'s': 'Y = ' + ' + '.join(f'{{p{i}}} * v{i}[-{1 + i % 3}]' for i in range(k))}
+    return gen
+
+
 def gen_midline_backticks():
     """Runs of backticks that are not at the start of a line (they cannot open a fenced block), in the middle of a script."""
     def gen():
@@ -550,6 +568,7 @@ def phases(tier):
               note='verbatim statements that are valid only inside / only outside a function body'),
         Phase('jointly-invalid-blocks', check_string, gen=gen_jointly_invalid(), exhaustive=True, shards=1,
               note='blocks that compile inside a method one at a time but not in sequence'),
+        Phase('long-names', check_string, gen=gen_long_names(), exhaustive=True, shards=2),
         Phase('midline-backticks', check_string, gen=gen_midline_backticks(), exhaustive=True, shards=1),
         Phase('keyword-token-strings', check_string, gen=gen_keyword_tokens(4, 5) if quick else gen_keyword_tokens(5, 6), exhaustive=True),
         Phase('mutated-scripts', check_mutant, strategy=strat_mutants, examples=4000 if quick else 120000),
